@@ -55,6 +55,10 @@ def gen(ctx):
         cases.append(history_case(r, nt, bo, sh, letters, mode=r.choice(['r+', 'r+', 'r']),
                                   metadata=r.choice([None, None, {'a': 1}]),
                                   layout=r.choice(['C', 'F', 'strided', 'T'])))
+    # arrays with a zero-length axis that is not the first one: they have rows but no values
+    for k, sh in enumerate([(2, 0), (1, 0, 3), (0, 2, 0)]):
+        for letters in (['it2', 'a1', 't1', 'ro'], ['a1', 'it2', 'set', 't-1'], ['abad', 'it2', 'itbad', 't0', 'a1']):
+            cases.append(history_case(r, NUMTYPES[(4 * k + len(letters)) % 13], ('little', 'big')[k % 2], sh, letters))
     # every fourth history runs with the array held open in an open_array() context: same outcomes
     for i, c in enumerate(cases):
         if i % 4 == 3 and not any(o['op'] == 'delete' for o in c['ops']):
